@@ -52,6 +52,11 @@ def check(c: Check):
 
 
 # ------------------------------------------------------------------ shared: symbolic texts
+def _widths(c: Check):
+    """numbers of lines of the symbolic texts: 0-3 (quick), 0-5 (thorough)"""
+    return (0, 1, 2, 3, 4, 5) if c.tier == 'thorough' else (0, 1, 2, 3)
+
+
 def text_lines(n: int, last_has_newline: bool = True) -> List[StrCat]:
     """the lines of a text as iteration gives them: non-empty, the new-line (if any) last"""
     out = []
@@ -247,7 +252,7 @@ def clause_d(c: Check):
     ix, fo = c.ix, c.fo
     g = ix.func(SM + 'num_lines:_PropertyGetter.get_from')
     n = 0
-    for width in (0, 1, 2, 3):
+    for width in _widths(c):
         for last_nl in ((True, False) if width else (True,)):
             it = Interp(ix, fo, TextHooks(text_lines(width, last_nl)))
             for p in it.run_function(g, {}):
@@ -589,7 +594,7 @@ def clause_e(c: Check):
             return fd is lo
 
     n = 0
-    for width in (0, 1, 2, 3):
+    for width in _widths(c):
         lines = text_lines(width)
         for f, with_original in ((mi, False), (om, True)):
             it = Interp(ix, fo, H())
@@ -995,7 +1000,7 @@ def clause_j(c: Check):
     pairs_f = ix.class_member(cls, '_line_and_line_matcher_models')
     mr = ix.cls('exactly_lib.type_val_prims.matcher.matching_result:MatchingResult')
     n = 0
-    for width in (0, 1, 2, 3):
+    for width in [w for w in _widths(c) if w <= 4]:   # the interpreter unrolls filtered comprehensions up to 4 elements
         for verdicts in itertools.product((True, False), repeat=width):
             lines = text_lines(width)
             models = [Sym('model%d' % i) for i in range(width)]
@@ -1107,11 +1112,11 @@ def clause_m(c: Check):
     c.require(len(mnp) == 1 and len(lp) == 1, 'C05-m: parameters of the prefix reader not recognised')
 
     class H(Hooks):
-        loop_bound = 4
+        loop_bound = 6
         record_comparisons = True
 
     n = 0
-    for width in (0, 1, 2, 3):
+    for width in _widths(c):
         lines = text_lines(width)
         it = Interp(ix, fo, H())
         mn = Sym('minimum', origin=('param', mnp[0], f.key))
@@ -1185,7 +1190,7 @@ def clause_n(c: Check):
     c.require(set(fns) == {None, 'trailing-space', 'trailing-new-lines'}, 'C05-n: functions of the strip variants not found (%s)' % sorted(map(str, fns)))
 
     class H(Hooks):
-        loop_bound = 5
+        loop_bound = 7
         symbolic_strings = True
 
     def facts(p):
@@ -1257,7 +1262,7 @@ def clause_n(c: Check):
     n = 0
     for variant, fn in sorted(fns.items(), key=lambda kv: str(kv[0])):
         vname = ('-' + variant) if variant else 'default'
-        for width in (0, 1, 2, 3):
+        for width in _widths(c):
             for last_nl in ((True, False) if width else (True,)):
                 syms = [Sym('line%d' % i) for i in range(width)]
                 lines = [StrCat([s_, K('\n')]) for s_ in syms]
